@@ -68,6 +68,10 @@ def run(F, rep, tier):
     # statement moves the columns to its right - nothing of a span may reach the emitted bytes (the line in the message of `<!>`
     # does: the known finding it shares with C14)
     core.borrow(rep, c14.no_layout_flow, lambda o: o["rule"] == "NO-LAYOUT-FLOW", F)
+    # instantiation treats a type the same whether it is known already (annotated) or not yet: what is tied to the surroundings
+    # by constraints stays shared for settled and for unknown nodes alike
+    import c02
+    core.borrow(rep, lambda F_, r_: c02.copy_discipline(F_, r_), lambda o: o["rule"] == "COPY" and o["key"].startswith("parts|"), F)
     erased_return_type(F, rep)
     checker_annotation_blind(F, rep)
     annotation_is_a_fresh_instance(F, rep)
@@ -409,6 +413,27 @@ def unknown_is_deferred(F, rep):
                               any(peel(z).get("hid") == xh for z in u["args"]) for u in nodes(i_["t"], "MethodCall"))
                 if only_unknown and unifies and order.index(id(i_)) < order.index(id(m)):
                     settled = True
+                    # the shape it is given has to pass the guards of the arm that follows: where that arm rejects a callee that
+                    # is not Pure under `inside_pure`, the function type made for the unknown callee is Pure under `inside_pure`
+                    # (otherwise every not-yet-typed callee inside a `pu` function is rejected: `pu s -> int do s.area(2) end`
+                    # fails where `s: Shape` is accepted)
+                    guards_purity = any("inside_pure" in pp(g_["c"]) and "Purity::Pure" in pp(g_["c"]) and tc.is_err_value(g_["t"])
+                                        for a2 in m["arms"] for g_ in nodes(a2["body"], "If"))
+                    if guards_purity:
+                        made = [c2 for c2 in nodes(i_["t"], "Call") if (callee(c2) or "").endswith("Type::Function") and len(c2["args"]) == 3]
+                        ok_p = False
+                        for c2 in made:
+                            p3 = peel(c2["args"][2])
+                            src3 = fl.trace(p3) if p3.get("k") == "Path" and p3.get("res") == "Local" else p3
+                            for cnd in [x_ for x_ in nodes(src3) if x_.get("k") == "If"] + ([src3] if isinstance(src3, dict) and src3.get("k") == "If" else []):
+                                if "inside_pure" in pp(cnd["c"]) and pp(tc.n_tail(cnd["t"])).endswith("Purity::Pure"):
+                                    ok_p = True
+                        rep.ob("INFERENCE", "%s|settled-shape-passes-the-purity-guard#%d" % (last(fn["_path"], 2), k), ok_p,
+                               "the function type made for a callee that is not known yet is Pure inside a pure function" if ok_p else
+                               "the function type %s makes for a callee that is not known yet does not become Pure under `inside_pure`, but the "
+                               "arm below rejects every callee that is not Pure there: a call of a not-yet-typed callee inside a `pu` "
+                               "function (`pu s -> int do s.area(2) end`) is rejected although `s: Shape` with a `pu` field is accepted"
+                               % last(fn["_path"], 2), line_of(i_))
             declared = declared or settled
             rep.ob("INFERENCE", "%s|catch-all=>error#%d" % (last(fn["_path"], 2), k), declared,
                    "a type that is still unknown is given the shape the operation needs before the split" if settled else
